@@ -1,11 +1,15 @@
 (* Props/C03.v — Every CUP request is freshly and faithfully decorated.
-   PARTIAL at the level of theorems: the URI rewriting and the injectivity of the model's nonce texts are proved
-   below; "every request of every history is so decorated, the retained metadata is what was sent, and no nonce is
-   used twice" is decided by (a) the byte-exact comparison of the real RequestBuilder + StandardCupv2Handler with the
-   model on a URL corpus (wire body = metadata body, key id, nonce <-> URL, two builds give different nonces), and
-   (b) the run-time monitor step3 on every implementation trace of scripted state-machine histories (all requests
-   decorated with the latest key id, nonces pairwise distinct over the whole history, metadata handed to the installer
-   equal to the wire) together with trace equality with the model.  Uniqueness of 256-bit random nonces is probabilistic. *)
+   Proved: the URI rewriting laws; and C03_decoration_monitor_accepts_every_model_trace: every request the model puts
+   on the wire in any history - update check, retry, event report, ping - targets the configured URL with scheme,
+   authority, path and old query intact and exactly the added cup2key=<latest key id>:<nonce of at least 64 hex
+   digits>, and the installer is handed metadata with a signature exactly when CUP is configured.
+   PARTIAL: "exactly 64 digits", "the retained metadata holds the bytes sent, the same key id and nonce" and "no nonce is
+   ever used twice" are decided (a) by the byte-exact comparison of the real RequestBuilder + StandardCupv2Handler with
+   the model on a URL corpus (wire body = metadata body, key id, nonce <-> URL, two builds give different nonces) and (b)
+   by the run-time monitor step3 on every implementation trace (every request decorated with the latest key id, a
+   64-digit nonce, nonces pairwise distinct over the whole history, metadata handed to the installer equal to the wire),
+   together with trace equality with the model.  Freshness of 256-bit random nonces is probabilistic in the real code;
+   the model idealises the generator as a counter, so a freshness theorem about the model would say nothing about it. *)
 Require Import Verif.Model.Time Verif.Base.Bytes Verif.Proofs.BytesFacts Verif.Model.Env Verif.Model.SM Verif.Proofs.UriFacts.
 Open Scope N_scope.
 
@@ -50,3 +54,34 @@ Example C03_ex :
 Proof. vm_compute. repeat split. Qed.
 
 Print Assumptions C03_exactly_one_more_parameter.
+
+Require Import Verif.Model.Monitors3 Verif.Proofs.Monitor Verif.Proofs.C03Proof Verif.Model.Proto.
+
+Theorem C03_decoration_monitor_accepts_every_model_trace :
+  forall ep cfg url cup apps e, e_trace e = [] ->
+    accepts step3a (init3a url cup) (run_case ep cfg url cup apps e) = true.
+Proof. exact model_accepted_c03. Qed.
+
+(* the canonical nonce text of the model: hex digits, at least 64 of them *)
+Theorem C03_nonce_text_shape : forall n, (64 <= length (nonce_text n))%nat /\ forallb is_hex (nonce_text n) = true.
+Proof. intro n. split; [apply nonce_text_long|apply nonce_text_hex]. Qed.
+
+Section Examples.
+  Let u : urlparts := {| u_valid := true; u_prefix := s2b "http://h"; u_path := s2b "/p"; u_query := Some (s2b "a=b") |}.
+  Let w (uri : bytes) : wire := {| w_uri := uri; w_headers := []; w_body := [];
+                                   w_sum := {| ws_source := ScheduledTask; ws_session := None; ws_request := None; ws_apps := [] |} |}.
+  Let n64 := s2b "0000000000000000000000000000000000000000000000000000000000000007".
+  Example C03_monitor_accepts :
+    accepts step3a (init3a u (Some 42)) [AHttp (w (s2b "http://h/p?a=b&cup2key=42:" ++ n64)) (HErr TTransport)] = true.
+  Proof. vm_compute. reflexivity. Qed.
+  (* undecorated; an older key id; the old query dropped; a short nonce; decorated although no CUP handler *)
+  Example C03_monitor_rejects :
+    accepts step3a (init3a u (Some 42)) [AHttp (w (s2b "http://h/p?a=b")) (HErr TTransport)] = false
+    /\ accepts step3a (init3a u (Some 42)) [AHttp (w (s2b "http://h/p?a=b&cup2key=41:" ++ n64)) (HErr TTransport)] = false
+    /\ accepts step3a (init3a u (Some 42)) [AHttp (w (s2b "http://h/p?cup2key=42:" ++ n64)) (HErr TTransport)] = false
+    /\ accepts step3a (init3a u (Some 42)) [AHttp (w (s2b "http://h/p?a=b&cup2key=42:07")) (HErr TTransport)] = false
+    /\ accepts step3a (init3a u None) [AHttp (w (s2b "http://h/p?a=b&cup2key=42:" ++ n64)) (HErr TTransport)] = false.
+  Proof. vm_compute. repeat split; reflexivity. Qed.
+End Examples.
+
+Print Assumptions C03_decoration_monitor_accepts_every_model_trace.
